@@ -153,6 +153,25 @@ def judge(case):
     st_s, ps_ = core.call(U.pyvaporation.get_partial_pressures, t, mix, shared, model)
     if st_s != "ok" or not all(core.bit_eq(ps_[i], pw[i]) for i in (0, 1)):
         v.append(core.viol("C04/basis/reused_composition/" + model, "a mass-fraction Composition object that was first used with another mixture gives partial pressures %r, a fresh one %r" % (ps_, pw)))
+    # activity coefficients asked directly with the mass-fraction composition: same mixture state, same coefficients
+    st_g, gw = core.call(ACT, temperature=t, mixture=mix, composition=U.Composition(p=w, type="weight"), calculation_type=model)
+    if st_g != "ok" or not all(core.close(float(gw[i]), g[i], 1e-9) or (math.isinf(g[i]) and float(gw[i]) == g[i]) for i in (0, 1)):
+        v.append(core.viol("C04/basis/activity_coefficients/" + model, "activity coefficients at mass fraction %r are %r, at the equivalent mole fraction %r they are %r" % (w, gw, x, g)))
+    # the caller edits an existing Mixture object in place (a component replaced, parameters replaced): pressures and coefficients
+    # must be those of a freshly built mixture with the edited content
+    if not isinstance(case["mixture"], str) or case["mixture"].startswith("S"):
+        donor = U.get_mixture("S4" if getattr(mix, "name", "") != "S4" else "S2")
+        edited = U.Mixture(name=mix.name, first_component=donor.first_component, second_component=donor.second_component,
+                           nrtl_params=donor.nrtl_params, uniquac_params=donor.uniquac_params)
+        core.call(U.pyvaporation.get_partial_pressures, t, edited, comp_m, model if U.has_model(edited, model) else "NRTL")
+        core.call(ACT, temperature=t, mixture=edited, composition=comp_m, calculation_type=model if U.has_model(edited, model) else "NRTL")
+        edited.first_component, edited.second_component = mix.first_component, mix.second_component
+        edited.nrtl_params, edited.uniquac_params = mix.nrtl_params, mix.uniquac_params
+        st_e, pe = core.call(U.pyvaporation.get_partial_pressures, t, edited, U.Composition(p=x, type="molar"), model)
+        st_w, pew = core.call(U.pyvaporation.get_partial_pressures, t, edited, U.Composition(p=w, type="weight"), model)
+        if st_e != "ok" or st_w != "ok" or not all(core.bit_eq(pe[i], pm[i]) and core.bit_eq(pew[i], pw[i]) for i in (0, 1)):
+            v.append(core.viol("C04/stale_after_mixture_edited/" + model, "a Mixture object whose components and parameters were replaced in place gives partial pressures %r / %r, "
+                               "a freshly built mixture with the same content %r / %r" % (pe, pew, pm, pw)))
     if not all(core.close(float(pw[i]), float(pm[i]), 1e-9) for i in (0, 1)):
         v.append(core.viol("C04/basis/" + model, "partial pressures differ between mole fraction %r and the equivalent mass fraction %r: %r vs %r" % (x, w, pm, pw)))
     return core.result("judged" + ("" if kclass is None else ":" + kclass), digest=core.digest_of([core.fhex(g[0]), core.fhex(g[1])]), viol=v,
